@@ -1850,9 +1850,10 @@ BTree_rangeSearch(BTree *self, PyObject *args, PyObject *kw, char type)
         goto empty_and_decref_buckets;      /* definitely empty */
 
     /* The buckets differ, or they're the same and the offsets show a non-
-    * empty range.
+    * empty range.  If both ends were moved inward - by a user-supplied bound
+    * or by excluding the first / last key - they may have crossed.
     */
-    if (min != Py_None && max != Py_None && /* both args user-supplied */
+    if ((min != Py_None || excludemin) && (max != Py_None || excludemax) &&
         lowbucket != highbucket)   /* and different buckets */
     {
         KEY_TYPE first;
